@@ -114,10 +114,36 @@ def run(ctx, rep):
     st = [(bb, t) for bb, t in DP.calls() if "callee" in t and callee(t).endswith("prune::PrunePack::set_todo")]
     rep.floor("C02.c", "set_todo sites in decide_packs", len(st), 8)
     ordn = {}
-    for (bb, t) in st:
+    def todo_alternatives(bb, t):
+        """[(variant, [blocks whose control conditions apply])]: the decision is either a literal variant or a local
+        that is assigned literal variants on different branches (`let todo = if c { A } else { B }`)"""
         e = flow.expr_of(DP, t["args"][1])
-        var = e[1][2] if e[0] == "agg" else (prog.variant_by_discr("commands::prune::PackToDo", e[1]) if e[0] == "const" and isinstance(e[1], int) else "?")
-        conds = cd_conditions(DP, bb)
+
+        def var_of(x):
+            if x[0] == "agg":
+                return x[1][2]
+            if x[0] == "const" and isinstance(x[1], int):
+                return prog.variant_by_discr("commands::prune::PackToDo", x[1])
+            return None
+        v = var_of(e)
+        if v is not None:
+            return [(v, [bb])]
+        out = []
+        if e[0] == "phi":
+            for d in DP.defs().get(e[1], []):
+                if d[0] == "stmt":
+                    x = flow._rv_expr(DP, d[4], d[1], 0, set())
+                    out.append((var_of(x) or "?", [bb, d[1]]))
+        return out or [("?", [bb])]
+
+    expanded = []
+    for (bb, t) in st:
+        for var, blks in todo_alternatives(bb, t):
+            expanded.append((bb, t, var, blks))
+    for (bb, t, var, blks) in expanded:
+        conds = []
+        for b_ in blks:
+            conds += cd_conditions(DP, b_)
         used0 = any(ex[0] in ("path", "proj") and ex[2] and ex[2][-1] == "used_blobs" and v == "0" for ex, v, sw in conds)
         usedn = any(ex[0] in ("path", "proj") and ex[2] and ex[2][-1] == "used_blobs" and v != "0" for ex, v, sw in conds)
         marked = any(ex[0] in ("path", "proj") and ex[2] and ex[2][-1] == "delete_mark" and v != "0" for ex, v, sw in conds)
